@@ -18,6 +18,23 @@ CHECKS = {
         design="2/C01"),
 }
 
+CHECKS["C02"] = dict(
+    text="Bounded model checking of the real dependency classification / process / invoke code for every component type: one "
+         "component over <=3 (quick) / <=4 (thorough) dependencies with every role assignment (required, two at-least-one groups, "
+         "optional, membership in both groups), every declaration order, every dependency outcome; dependency values are "
+         "unconstrained symbolic ints so positional binding is a solver-discharged equality; the enabled switch is a symbolic "
+         "boolean read by the real guard. apply_default_enabled/apply_configs are run from arbitrary earlier set_enabled/is_enabled "
+         "histories with symbolic enabled values.",
+    note="Bounds: <=4 dependencies, <=3 config entries over a 6-name pool; outside: deprecated `metadata` type, cluster group, "
+         "set-iteration schedules (C04).")
+CHECKS["C03"] = dict(
+    text="Bounded model checking of the real try/except ladders (run_components, PluginType/datasource/parser.invoke) on a "
+         "datasource -> registry point -> (multi-output) parser -> combiner -> rule pipeline plus an unrelated leaf: every placement "
+         "of 6 fault kinds on every body and parser element, continue_on_error, store_skips, a failing observer of 3 kinds on any "
+         "component; values are symbolic ints and must equal a reference evaluation (solver-discharged).",
+    note="Bounds: multi-output lists of <=2 (quick) / <=3 (thorough) elements; timeouts injected as the exception the alarm handler "
+         "raises; outside: real signal delivery, BlacklistedSpec, other graph shapes (varied in C01/C04).")
+
 NOT_APPLICABLE = {
 }
 
